@@ -33,6 +33,8 @@ fn gate(p: &Partial, t: Tier) -> Result<(), String> {
     super::need(p, "expected-reject", 100_000)?;
     super::need(p, "expected-accept", 100)?;
     super::need(p, "table-unchanged-checked", 10_000)?;
+    super::need(p, "table-after-valid-frame", 10_000)?;
+    super::need(p, "after-valid-frame", 10_000)?;
     Ok(())
 }
 
@@ -82,9 +84,14 @@ fn patterns(nbits: u32, max_burst: u32, mut f: impl FnMut(u128, &'static str)) {
     }
 }
 
-fn check_get_message(ctx: &mut Ctx, name: &str, base: &Frame, mask: u128, kind: &str) {
+fn check_get_message(ctx: &mut Ctx, name: &str, base: &Frame, mask: u128, kind: &str, after_base: bool) {
     let f = Frame { v: base.v ^ mask, nbits: base.nbits };
     let want = expect_accept(&f);
+    if after_base {
+        // the corrupted copy arrives directly after the valid frame
+        let _ = get_message(&base.hex());
+        ctx.count("after-valid-frame");
+    }
     let got = get_message(&f.hex()).is_some();
     ctx.eval();
     ctx.count(if want { "expected-accept" } else { "expected-reject" });
@@ -92,10 +99,10 @@ fn check_get_message(ctx: &mut Ctx, name: &str, base: &Frame, mask: u128, kind: 
     if want != got {
         let hex = f.hex();
         ctx.violation(
-            &format!("C04/get_message/{name}"),
+            &format!("C04/get_message{}/{name}", if after_base { "-after-valid" } else { "" }),
             &format!("{hex}"),
             || format!("{name} with {kind} error: reference remainder {:06X} => {} ; get_message {}", f.remainder(), if want { "accept" } else { "reject" }, if got { "accepts" } else { "rejects" }),
-            || json!({"kind": "gm", "hex": hex}),
+            || json!({"kind": "gm", "hex": hex, "after": if after_base { Some(base.hex()) } else { None }}),
         );
     }
 }
@@ -159,6 +166,39 @@ fn table_batch(ctx: &mut Ctx, cfg: &Cfg, pname: &str, pre: &[Snap], name: &str, 
     table_batch(ctx, cfg, pname, pre, name, &lines[mid..]);
 }
 
+/// lines alternate valid base / corrupted copy; the table must stay what it is after the valid frame
+fn table_batch_interleaved(ctx: &mut Ctx, cfg: &Cfg, pname: &str, pre: &[Snap], name: &str, base_hex: &str, lines: &[(String, &'static str)]) {
+    if lines.is_empty() {
+        return;
+    }
+    let t = restore(pre);
+    let content = join_lines(&lines.iter().map(|(h, _)| h.as_bytes().to_vec()).collect::<Vec<_>>());
+    let o = run_file(cfg, &content, &t);
+    let after = snapshot(&t);
+    let ncorr = lines.iter().filter(|(_, k)| *k != "valid").count() as u64;
+    if o.is_ok() && after == pre {
+        ctx.evals(ncorr);
+        ctx.count_n("table-unchanged-checked", ncorr);
+        ctx.count_n("table-after-valid-frame", ncorr);
+        return;
+    }
+    if ncorr <= 1 {
+        let (hex, kind) = lines.iter().find(|(_, k)| *k != "valid").cloned().unwrap_or_default();
+        ctx.eval();
+        ctx.violation(
+            &format!("C04/table-after-valid/{pname}/{name}/{}", cfg.label()),
+            &hex,
+            || format!("{name} with {kind} error ({hex}) arriving directly after the valid frame {base_hex} changed the {pname} table ({})", o.label()),
+            || json!({"kind": "table-after-valid", "hex": hex, "base": base_hex, "pre": pname, "cfg": cfg.opts}),
+        );
+        return;
+    }
+    // split on a pair boundary
+    let mid = (lines.len() / 4).max(1) * 2;
+    table_batch_interleaved(ctx, cfg, pname, pre, name, base_hex, &lines[..mid]);
+    table_batch_interleaved(ctx, cfg, pname, pre, name, base_hex, &lines[mid..]);
+}
+
 fn run(ctx: &mut Ctx) {
     let bs = bases();
     let thorough = ctx.tier.thorough();
@@ -180,15 +220,28 @@ fn run(ctx: &mut Ctx) {
                 todo.push((m, k));
                 if todo.len() >= 1 << 16 {
                     for (m, k) in todo.drain(..) {
-                        check_get_message(ctx, name, base, m, k);
+                        check_get_message(ctx, name, base, m, k, false);
                     }
                 }
             }
         });
         for (m, k) in todo.drain(..) {
-            check_get_message(ctx, name, base, m, k);
+            check_get_message(ctx, name, base, m, k, false);
         }
         job += (n >> 16) + 1;
+        // the same 1-/2-bit errors and bursts <= 10, each directly after the valid frame
+        let mut n2 = 0u64;
+        let mut todo2: Vec<(u128, &'static str)> = vec![];
+        patterns(nbits, 10, |m, k| {
+            n2 += 1;
+            if (job + (n2 >> 14)) % ctx.nparts == ctx.part {
+                todo2.push((m, k));
+            }
+        });
+        for (m, k) in todo2.drain(..) {
+            check_get_message(ctx, name, base, m, k, true);
+        }
+        job += (n2 >> 14) + 1;
         ctx.bound(&format!("bursts {name}"), format!("<= {max_burst} bits, {n} patterns"));
     }
     // the unmodified bases must be accepted (the check is not vacuous "rejects everything")
@@ -220,6 +273,19 @@ fn run(ctx: &mut Ctx) {
                 for chunk in lines.chunks(8192) {
                     table_batch(ctx, &cfg, pname, pre, name, chunk);
                 }
+                // "arriving at any point of a history": each corrupted copy directly after the valid frame
+                // (pre-state = the table after the valid frame; it is re-fed before every corrupted line)
+                let t = restore(pre);
+                // the reference state is the table after the valid frame has been applied to its own row
+                // (twice: the first application may create the row, later ones update it)
+                let ob = run_file(&cfg, &join_lines(&[base.hex().into_bytes(), base.hex().into_bytes()]), &t);
+                if ob.is_ok() {
+                    let after_base = snapshot(&t);
+                    let inter: Vec<(String, &'static str)> = lines.iter().flat_map(|(h, k)| [(base.hex(), "valid"), (h.clone(), *k)]).collect();
+                    for chunk in inter.chunks(8192) {
+                        table_batch_interleaved(ctx, &cfg, pname, &after_base, name, &base.hex(), chunk);
+                    }
+                }
             }
         }
     }
@@ -237,10 +303,34 @@ fn replay(ctx: &mut Ctx, case: &Value) {
     match case.get("kind").and_then(|x| x.as_str()) {
         Some("gm") => {
             let want = expect_accept(&f);
+            if let Some(b) = case.get("after").and_then(|x| x.as_str()) {
+                crate::run::say(&format!("first the valid frame {b} (accepted: {})", get_message(b).is_some()));
+            }
             let got = get_message(&hex).is_some();
             crate::run::say(&format!("{hex}: reference remainder {:06X} => expected {}, get_message {}", f.remainder(), if want { "accept" } else { "reject" }, if got { "accepts" } else { "rejects" }));
             if want != got {
                 ctx.violation("C04/get_message", &hex, || "acceptance differs from the parity rule".into(), || case.clone());
+            }
+        }
+        Some("table-after-valid") => {
+            let opts: Vec<String> = case.get("cfg").and_then(|c| c.as_array()).map(|a| a.iter().filter_map(|x| x.as_str().map(String::from)).collect()).unwrap_or_default();
+            let o: Vec<&str> = opts.iter().map(|s| s.as_str()).collect();
+            let cfg = Cfg::new(&o);
+            let pname = case.get("pre").and_then(|x| x.as_str()).unwrap_or("empty");
+            let base = case.get("base").and_then(|x| x.as_str()).unwrap_or("").to_string();
+            for (n, pre) in prestates() {
+                if n == pname {
+                    let t = restore(&pre);
+                    let _ = run_file(&cfg, &join_lines(&[base.as_bytes().to_vec(), base.as_bytes().to_vec()]), &t);
+                    let after_base = snapshot(&t);
+                    let t2 = restore(&after_base);
+                    let oc = run_file(&cfg, &join_lines(&[base.as_bytes().to_vec(), hex.as_bytes().to_vec()]), &t2);
+                    let after = snapshot(&t2);
+                    crate::run::say(&format!("valid {base} then corrupted {hex} (remainder {:06X}) into the {pname} table, cfg [{}]: outcome {}, table identical to the table after the valid frame: {}", f.remainder(), cfg.label(), oc.label(), after == after_base));
+                    if !expect_accept(&f) && (!oc.is_ok() || after != after_base) {
+                        ctx.violation("C04/table-after-valid", &hex, || "frame failing parity changed the table".into(), || case.clone());
+                    }
+                }
             }
         }
         Some("table") => {
